@@ -66,9 +66,7 @@ Inductive pc :=
 | PLooked (found : option addr)     (* lookup done under the lock, lock released *)
 | PSend (f : frame) (cont : bool)   (* frame decided; cont: the loop goes on to its select afterwards *)
 | PWait                             (* in the select *)
-| PDone                             (* returned *)
-| PDied.                            (* returned because the announcement's write failed (defect K4: the hunt
-                                       entry stays, nothing spoofs or restores that MAC any more) *)
+| PDone.                            (* returned *)
 
 Record loop := mkLoop { laddr : addr; lpc : pc }.
 
@@ -194,10 +192,6 @@ Definition set_pc (i : nat) (p : pc) (l : list loop) : list loop :=
   | None => l
   end.
 
-(* the announcement's WriteTo failed: "return" in the original code; since the repair the loop logs the
-   error and tries again at the next tick *)
-Definition ANNOUNCE_ERROR_ENDS_LOOP : bool := true.
-
 (* Lock; targetAddr, hunting := h.huntList[string(addr.MAC)]; Unlock *)
 Definition lookup (s : state) (i : nat) : state * list frame :=
   match nth_error (loops s) i with
@@ -226,15 +220,16 @@ Definition check (c : cfg) (s : state) (i : nat) : state * list frame :=
   | None => (s, [])
   end.
 
-(* the write, and what follows it *)
+(* the write, and what follows it: after the restoring request the loop returns whatever WriteTo said;
+   after an announcement it goes to its select whatever WriteTo said (a refused announcement is logged and
+   tried again at the next tick — repair of K4; the original code returned, leaving the hunt entry behind) *)
 Definition send (s : state) (i : nat) : state * list frame :=
   match nth_error (loops s) i with
   | Some lp =>
       match lpc lp with
       | PSend f cont =>
           let '(s1, out, ok) := wr s f in
-          let p := if cont then (if ok then PWait else if ANNOUNCE_ERROR_ENDS_LOOP then PDied else PWait)
-                   else PDone in
+          let p := if cont then PWait else PDone in
           (set_loops s1 (set_pc i p (loops s1)), out)
       | _ => (s, [])
       end
@@ -425,28 +420,25 @@ Definition none_of (P : event -> bool) (evs : list event) : Prop :=
 Definition loop_at (s : state) (i : nat) (a : addr) (p : pc) : Prop :=
   nth_error (loops s) i = Some (mkLoop a p).
 Definition at_select (p : pc) : bool := match p with PTop | PWait => true | _ => false end.
-Definition is_done (p : pc) : bool := match p with PDone | PDied => true | _ => false end.
+Definition is_done (p : pc) : bool := match p with PDone => true | _ => false end.
 Definition live (s : state) (i : nat) : bool :=
   match nth_error (loops s) i with Some lp => negb (is_done (lpc lp)) | None => false end.
 
 Definition pc_of (s : state) (i : nat) : option pc := option_map lpc (nth_error (loops s) i).
 
-(* ---- recorded defect class ----
-   K4: spoofLoop returns when AnnounceTo fails (a refused write) and leaves the MAC in the hunt list:
-   StartHunt of that MAC is then a no-op, it is never spoofed again, and after StopHunt nothing restores
-   it.  The class: a step of a loop that died this way. *)
-Definition known_C13_write_error_kills (s : state) (e : event) : bool :=
-  match e with
-  | Lookup i | Check i | Send i => match pc_of s i with Some PDied => true | _ => false end
-  | _ => false
-  end.
+(* ---- recorded defect classes ----
+   None is left in the current tree.  Found on the original code and repaired in /repo (known_findings.txt,
+   FIXLOG.md): K1 probe-reject for the router's address to an unhunted MAC; K2 = DESIGN #27 loop membership by
+   IP; K3 forged replies on the receive path after Close; K4 a refused write of an announcement ended the loop
+   and left the hunt entry behind.  The refutation theorems about the unrepaired models are in the history
+   of this file (verif commits e3a3954, ae1e0b3, dd6b3e8, 87e4145). *)
 
 (* ---- real time ----
    A timed run attaches a timestamp (any unit) to every event.  Real time enters the theorems only through
    the FAIRNESS HYPOTHESIS [fair c P tr]: whenever a spoof loop has not returned, then within one ticker
-   period P (as long as the run is observed that long) it begins and completes an iteration: it passes its
-   select and does its lookup, then its check, then its write, each when the loop stands at that point and
-   with no other step of that loop in between.  It is a hypothesis about the Go runtime (6 s ticker,
+   period P (as long as the run is observed that long) it either returns or begins and completes an
+   iteration: it passes its select and does its lookup, then its check, then its write, with no other step of
+   that loop in between.  It is a hypothesis about the Go runtime (6 s ticker,
    scheduler), not about the handler. *)
 Definition timed := list (Z * event).
 Definition events (tr : timed) : list event := map snd tr.
@@ -467,10 +459,15 @@ Definition fair (c : cfg) (P : Z) (tr : timed) : Prop :=
     nth_error tr k = Some (t, e) ->
     live (state_before c tr (S k)) i = true ->
     observed_until tr (t + P) ->
-    exists j1 j2 j3 t1 t2 t3,
+    (* by t + P the loop has returned ... *)
+    (exists j tj ej, (k < j)%nat /\ nth_error tr j = Some (tj, ej) /\ (tj <= t + P)%Z /\
+                     live (state_before c tr (S j)) i = false)
+    \/
+    (* ... or it has begun and completed an iteration *)
+    (exists j1 j2 j3 t1 t2 t3,
       (k < j1)%nat /\ (j1 < j2)%nat /\ (j2 < j3)%nat /\ (t3 <= t + P)%Z /\
       nth_error tr j1 = Some (t1, Lookup i) /\ nth_error tr j2 = Some (t2, Check i) /\
       nth_error tr j3 = Some (t3, Send i) /\
       (exists p, pc_of (state_before c tr j1) i = Some p /\ at_select p = true) /\
       (forall x tx ex, (j1 < x)%nat -> (x < j3)%nat -> x <> j2 -> nth_error tr x = Some (tx, ex) ->
-                       is_loop_event i ex = false).
+                       is_loop_event i ex = false)).
